@@ -175,6 +175,17 @@ func (in *Interp) installStubs4() {
 		m.vals = append(m.vals, a[2])
 		return nil
 	}
+	S["(*sync.Once).Do"] = func(in *Interp, a []Value) Value {
+		p := a[0].(Ptr)
+		if in.onces == nil {
+			in.onces = map[*Obj]bool{}
+		}
+		if !in.onces[p.O] {
+			in.onces[p.O] = true
+			in.callValue(a[1], nil)
+		}
+		return nil
+	}
 	// ---- regexp: Go's engine is trusted and run natively on concrete operands ----
 	S["regexp.Compile"] = func(in *Interp, a []Value) Value {
 		s, ok := a[0].(Str)
